@@ -2,15 +2,98 @@
 package conn
 
 import (
+	"io"
+	"net"
+	"time"
+
+	"github.com/andres-erbsen/clock"
+	"github.com/uber-go/tally"
 	"github.com/uber/kraken/core"
-	"go.uber.org/atomic"
+	"github.com/uber/kraken/lib/torrent/networkevent"
+	"github.com/uber/kraken/lib/torrent/storage"
+	verif "github.com/uber/kraken/zzverif"
+	"github.com/willf/bitset"
+	"go.uber.org/zap"
 )
 
-// VerifNewConn builds a Conn value field by field (no socket, no loops): the
-// connection-state code only uses its identity, PeerID, InfoHash and IsClosed.
-func VerifNewConn(h core.InfoHash, p core.PeerID) *Conn {
-	return &Conn{peerID: p, infoHash: h, closed: atomic.NewBool(false), done: make(chan struct{})}
+// Helper for the connstate / scheduler harnesses of C16: real Conn values
+// built through the package's own constructors (NewHandshaker, newConn) over a
+// dead socket; the connection loops are never started. API-only: no struct
+// field of Conn is touched.
+
+type verif16Sock struct{}
+
+func (verif16Sock) Read(p []byte) (int, error)         { return 0, io.EOF }
+func (verif16Sock) Write(p []byte) (int, error)        { return len(p), nil }
+func (verif16Sock) Close() error                       { return nil }
+func (verif16Sock) LocalAddr() net.Addr                { return nil }
+func (verif16Sock) RemoteAddr() net.Addr               { return nil }
+func (verif16Sock) SetDeadline(t time.Time) error      { return nil }
+func (verif16Sock) SetReadDeadline(t time.Time) error  { return nil }
+func (verif16Sock) SetWriteDeadline(t time.Time) error { return nil }
+
+type verif16NoEvents struct{}
+
+func (verif16NoEvents) Produce(*networkevent.Event) {}
+func (verif16NoEvents) Close() error                { return nil }
+
+type verif16ConnEvents struct{}
+
+func (verif16ConnEvents) ConnClosed(*Conn) {}
+
+var (
+	verif16Infos [2]*storage.TorrentInfo
+	verif16H     *Handshaker
+)
+
+func verif16Setup() {
+	if verif16H != nil {
+		return
+	}
+	var local core.PeerID
+	local[0] = 0xEE
+	h, err := NewHandshaker(Config{}, tally.NoopScope, clock.NewMock(), verif16NoEvents{}, local,
+		verif16ConnEvents{}, zap.NewNop().Sugar())
+	verif.Assert("new-handshaker", err == nil)
+	verif16H = h
+	names := [2]string{
+		"00112233445566778899aabbccddeeff00112233445566778899aabbccddeeff",
+		"11112233445566778899aabbccddeeff00112233445566778899aabbccddeeff",
+	}
+	for t := range names {
+		d, err := core.NewSHA256DigestFromHex(names[t])
+		verif.Assert("digest", err == nil)
+		mi, err := core.NewMetaInfoFromBytes(d, []byte{byte(1 + t), 2}, 1)
+		verif.Assert("metainfo", err == nil)
+		verif16Infos[t] = storage.NewTorrentInfo(mi, bitset.New(2))
+	}
 }
 
-// VerifMarkClosed sets the closed flag, as Close would.
-func VerifMarkClosed(c *Conn) { c.closed.Store(true) }
+// VerifReset forgets the cached handshaker / torrents (package variables do
+// not survive between native sample runs in one process otherwise harmlessly).
+func VerifReset(bool) { verif16H = nil }
+
+// VerifTorrentHash is the info hash of harness torrent t (0 or 1).
+func VerifTorrentHash(t int) core.InfoHash {
+	verif16Setup()
+	return verif16Infos[t].InfoHash()
+}
+
+// VerifNewConn is a fresh, open connection to peer p for harness torrent t.
+func VerifNewConn(t int, p core.PeerID) *Conn {
+	verif16Setup()
+	c, err := verif16H.newConn(verif16Sock{}, p, false, verif16Infos[t], true)
+	verif.Assert("new-conn", err == nil)
+	return c
+}
+
+// VerifNewConnFor is a fresh, open connection to peer p for a torrent info.
+func VerifNewConnFor(info *storage.TorrentInfo, p core.PeerID) *Conn {
+	verif16Setup()
+	c, err := verif16H.newConn(verif16Sock{}, p, false, info, true)
+	verif.Assert("new-conn", err == nil)
+	return c
+}
+
+// VerifMarkClosed closes the connection (its loops were never started).
+func VerifMarkClosed(c *Conn) { c.Close() }
